@@ -617,8 +617,10 @@ def refusal_gen(rng, tier):
         # an answered query costs 1 + 3, a refused one nothing: about six answers, then refusals)
         # (UDP only: on the stream and DoH listeners every harness query opens a connection of its own, and a refused
         # CONNECTION is closed without a response — the per-query refusals of those listeners are C13's / C15 admit's)
-        l = "udp"
-        cfg = "U=u;E=0;S=-;R=-:0:0:0;L=1:%d;X=%d" % (rng.choice([28, 30, 33]), i)
+        # (udpmr = wildcard listener with udp.multi_routes, queried at a non-primary local address through a connected
+        # socket: a REFUSED response leaving from another address than the query went to never arrives — seed C15-J)
+        l = "udpmr" if i % 3 == 2 else "udp"
+        cfg = "U=u;E=0;S=-;R=-:0:0:0;L=1:%d;%sX=%d" % (rng.choice([28, 30, 33]), "W=1;" if l == "udpmr" else "", i)
         name = gens.raw_name([b"rf%d" % i, rng.choice(VOCAB), b"test"])
         question = name + b"\0" + struct.pack(">HH", 1, 1)
         reply = struct.pack(">HHHHHH", 0, 0x8180, 1, 1, 0, 0) + question + b"\xc0\x0c" + struct.pack(">HHIH", 1, 1, 60, 4) + bytes([10, 0, 0, 9])
